@@ -238,9 +238,8 @@ def typing_traces(ctx, tree, vec):
     thorough: every test and the compiler's own sources."""
     q = ctx.quick
     wd = ctx.tmp("ty-src")
-    items = list(enumerate(vec))
+    items = vt.subsample(list(enumerate(vec)), ctx.seed, 20 if q else 4)     # spread over every family
     chunks = [items[i:i + 300] for i in range(0, len(items), 300)]
-    chunks = vt.subsample(chunks, ctx.seed, 20 if q else 4)
     gen = []
     for j, ch in enumerate(chunks):
         p = "%s/gen%d.c" % (wd, j)
